@@ -11,7 +11,7 @@ LEVEL = "model_checking"
 RULE = ("case = generated 3D plotfile (1..3 nested levels, fine boxes adjacent / separated along the normal and touching "
         "domain faces, three axis rotations, two origins x cell shapes) x normal; execution = one "
         "Mandoline(...).slice(normal, pos, fformat='return') at a lattice position (EVERY multiple of a quarter of the "
-        "finest cell over the closed domain for dyadic geometry; every odd multiple for non-dyadic geometry), for a field "
+        "finest cell over the closed domain, for dyadic and non-dyadic geometry alike), for a field "
         "list x limit x serial/parallel x two np.empty poison patterns, judged per pixel: field affine along the normal = "
         "a+b*pos, field constant along the normal = covering data, general field = lerp of the two bracket samples of the "
         "finest level containing the point when both exist there, otherwise membership in the finite candidate set; no "
@@ -85,6 +85,13 @@ def cases(tier, seed):
                     out.append({"desc": d, "normal": n, "dyadic": dyadic, "w": len(mesh["levels"])})
     for n in (0, 2):
         out.append({"desc": deep_desc(seed, n), "normal": n, "dyadic": True, "deep": True, "w": 8})
+    # level directories named otherwise than Level_k
+    base = base_meshes(tier)[1]
+    d = dict(rot(base, 1))
+    d.update(GEOS[1][0])
+    d.update({"fields": ["A", "C", "G", "H"], "payload": ["affine1", "const1", "coded", "hconst1"], "seed": seed, "levelprefix": "Lev_",
+              "layout": [scope.layouts(len(b), 'idrev')[-1] for b in d["levels"]]})
+    out.append({"desc": d, "normal": 1, "dyadic": GEOS[1][1], "w": len(d["levels"])})
     return out
 
 
@@ -330,7 +337,7 @@ def run_case(case, workdir):
     dh = h64([desc, n])
     nlev = ref.nlevels
     N = sm.nunits()
-    positions = list(range(0, N + 1)) if case["dyadic"] else list(range(1, N, 2))
+    positions = list(range(0, N + 1))      # (also for the non-dyadic geometry: box faces and cell centres are decidable there too)
 
     def do(fl, limit, serial, pos, poison):
         with vpool.controlled() as ctl:
